@@ -20,7 +20,7 @@ Requests
   `ufb <Ty> <dest Py | D> <src Py>`     update_from_builtin (D = fresh `C()`)    → `ok <Py>` | `err <kind>`
   `hasty <strict 0/1> <Ty> <Py>`        well-typedness                           → `1` | `0`
   `default <Ty>`                        `C()` / field default                    → `<Py>`
-  `aliases <n> (<name> <major> <minor> <deprecated 0/1>)*n`  package aliases `Name_M`              → `(<name> <major> <newest minor>)*` | `-`
+  `aliases <n> (<name> <major> <minor> <deprecated 0/1>)*n`  alias assignments of the package `__init__`  → `(<Name_M> <Name_M_m>)*` | `-`
   `import <k> <dotted module path>*k <dotted namespace>`  `do_import` of get_class over that package tree → path | `none`
   `tbtop <service 0/1> <Ty> <Py>` / `ufbtop <service 0/1> <Ty> <dest Py | D> <src Py>`  to_builtin / update_from_builtin
                                         at the top level (service classes: `err type`)
@@ -331,7 +331,11 @@ def answer (line : String) : String :=
       | _, _ => none
     match n.toNat?.bind (fun n => go n r) with
     | some tys =>
-      let out := (aliases tys).map fun t => s!"{t.name} {t.major} {t.minor}"
+      -- the alias assignments of the package's `__init__` as rendered by (the repaired) Namespace.j2
+      let defs : List (Def String) := tys.map fun t => ⟨["p"], t.name, t.major, t.minor, "", none⟩
+      let out := match (renderPackage (B := String) defs ["p"]) with
+        | .package _ als => als.map fun a => s!"{a.1} {a.2}"
+        | _ => []
       if out.isEmpty then "-" else " ".intercalate out
     | none => "bad-op"
   | "import" :: k :: r =>
